@@ -657,7 +657,10 @@ class CliffordTableau(StabilizerState):
     def measure(
         self, axes: Sequence[int], seed: cirq.RANDOM_STATE_OR_SEED_LIKE = None
     ) -> list[int]:
-        return [self._measure(axis, random_state.parse_random_state(seed)) for axis in axes]
+        # Parse the seed once: with an integer seed, parsing it per axis would restart the same
+        # random stream for every axis and correlate the outcomes of independent qubits.
+        prng = random_state.parse_random_state(seed)
+        return [self._measure(axis, prng) for axis in axes]
 
     @cached_method
     def __hash__(self) -> int:
